@@ -87,18 +87,48 @@ func c02Run(dv divider.Divider) {
 	e.monitors()
 	var outLog []types.Prioritized[int]
 	// handlers: release in-flight items when the discipline waits, in any order
+	// handlers that finish together: further releases land in the buffer before the discipline gets to read the earlier
+	// ones. e.G counts what was handed out minus what the discipline has READ, so what is still buffered is subtracted:
+	// pushed = priority indexes of all releases issued so far, of which the first vRecvCount(feedback) have been read.
+	var pushed []int
+	moreReleases := func() {
+		for len(d.feedback) < cap(d.feedback) && vChoose("another-release", 2) == 1 {
+			j := vChoose("release", e.n)
+			queued := uint(0)
+			for _, q := range pushed[vRecvCount(d.feedback):] {
+				if q == j {
+					queued++
+				}
+			}
+			vAssume(e.G[j] >= queued+1)
+			pushed = append(pushed, j)
+			d.feedback <- e.ps[j]
+		}
+	}
 	vOnBlock(d.feedback, func() {
 		total := vSumAssert("in flight", e.G...)
 		vAssert(total > 0, "C06: the discipline blocks on the feedback channel only while some item is in flight (no deadlock)")
+		if total == 0 {
+			vDecline() // nothing left to release: the wait can never end (BLOCKED is a violation of C06 / C07 below)
+			return
+		}
 		i := vChoose("release", e.n)
 		vAssume(e.G[i] >= 1)
 		d.feedback <- e.ps[i]
+		pushed = append(pushed, i)
+		moreReleases()
+	})
+	// releases may also arrive between the discipline's reads of the feedback channel (while it computes the next allotment)
+	vReplace("calcTactic", func(dd *Discipline[int]) (bool, error) {
+		moreReleases()
+		return dd.calcTactic()
 	})
 	vReplace("getLimitedFeedback", func(dd *Discipline[int]) {
 		if len(dd.feedback) == 0 && vChoose("late-release", 2) == 1 {
 			i := vChoose("release", e.n)
 			vAssume(e.G[i] >= 1)
 			dd.feedback <- e.ps[i]
+			pushed = append(pushed, i)
 		}
 		dd.getLimitedFeedback()
 	})
@@ -142,7 +172,7 @@ func c02Run(dv divider.Divider) {
 		vAssert(k == len(written[i]), "C02: every item of the priority was delivered")
 	}
 	vAssert(vAnd(vIsClosed(d.output), vIsClosed(d.err), len(d.err) == 0), "C07: normal termination closes output and err without an error value")
-	vAssert(vTickerStops() == 1, "C19: the interrupter is stopped")
+	vAssert(vTickersRunning() == 0, "C19: the interrupter ticker is not left running when main returns")
 }
 
 // C15 / C19: a run from New in which the divider (a sum-preserving function up to then) breaks the
@@ -217,7 +247,7 @@ func VerifC15_run_fault() {
 		vAssert(g == 0, "C15: the discipline terminates only after the in-flight items were released")
 		vReach("fault")
 	}
-	vAssert(vTickerStops() == 1, "C19: the interrupter is stopped")
+	vAssert(vTickersRunning() == 0, "C19: the interrupter ticker is not left running when main returns")
 }
 
 // C06 / C07: a run from New in which some inputs stay open and idle for a while: their writer delivers
